@@ -8,7 +8,7 @@ for l in open(sys.argv[1]):
     sid, rest = l.split(':',1)
     cur[sid.strip()] = rest.split()
 neutral = set(os.listdir('/verif/neutral'))
-known2 = set("UA3 UC2 WC1 WC3 WD2 XB2 XC1 XC2 XD1 XD3 YB3 YD2 ZD1 AA3 AB3 AC3 BA3 BB2 BC2 BD2 DB2 DC2 DD2 EC1 ED2".split()) | set('U6-1 U6-3 U6-6 U8-4 U8-5 PC1 PD2 QA1 QC1 QC3 QD2 QE4 QF3 RA4 RE2 RE4 RD2 RF2 RF4'.split())
+known2 = set("UA3 UC2 WC1 WC3 WD2 XB2 XC1 XC2 XD1 XD3 YB3 YD2 ZD1 AA3 AB3 AC3 BA3 BB2 BC2 BD2 DB2 DC2 DD2 EC1 ED2 IB1".split()) | set('U6-1 U6-3 U6-6 U8-4 U8-5 PC1 PD2 QA1 QC1 QC3 QD2 QE4 QF3 RA4 RE2 RE4 RD2 RF2 RF4'.split())
 lost=[]; gained=[]
 for sid, props in sorted(exp.items()):
     if sid not in cur: print('MISSING', sid); continue
